@@ -7,9 +7,9 @@
    threshold RDP, the property's threshold domain (curved (trivial cost) = false: t > 0, resp. t <= 1 for R2).
    Threshold RDP: Model/Rdp.v + Proofs/RdpFacts.v.  Fixed-size family: Model/RdpFixed.v + Proofs/RdpFixedFacts.v
    (the fixed-size topic's files), imported here verbatim. *)
-From Coq Require Import List Arith Bool.
+From Coq Require Import List Arith Bool PrimFloat.
 From Knee Require Import Num NumFloat NpList Model.Mapping Model.Rdp Model.RdpFixed
-  Proofs.ListFacts Proofs.MappingFacts Proofs.SegFacts Proofs.RdpFacts Proofs.RdpFixedFacts Proofs.C01Facts.
+  Proofs.ListFacts Proofs.MappingFacts Proofs.SegFacts Proofs.RdpFacts Proofs.RdpFixedFacts Proofs.C01Facts Run.RdpTables.
 Import ListNotations.
 
 (* ---- threshold RDP (rdp.rdp) ---- *)
@@ -110,3 +110,23 @@ Theorem C01_code_of_WF : forall n bound acts red iters, 1 <= n -> WF n red ->
   C01_code n bound acts (Some (red, rows red)) iters = 0.
 Proof. exact C01_code_WF. Qed.
 Print Assumptions C01_code_of_WF.
+
+(* non-vacuity (same instance as Props/C04.v: rdp.rdp on [[0,1],[1,3],[2,2],[3,5],[4,1],[5,2]], t = 0.25, the
+   library's own distance / cost values): the hypotheses hold; the model returns after 5 <= 2*6-3 iterations; the
+   predicate accepts the implementation's output with its observed iteration count, and rejects "did not return",
+   a duplicated index (the shape of defect D2), a wrong removed table and an iteration count above the bound *)
+Example C01_example :
+  let dt : dtab := [(0, 6, [0x0.0p+0%float; 0x1.c3da00d7ba4e0p+0%float; 0x1.2d3c008fd1895p-1%float; 0x1.aabfab7668d7ep+1%float; 0x1.91a556151761cp-1%float; 0x0.0p+0%float]);
+     (3, 6, [0x0.0p+0%float; 0x1.6a09e667f3bcdp+0%float; 0x0.0p+0%float])] in
+  let ct : ctab := [(0, 6, 0x1.dfe21982cad3cp-2%float); (0, 4, 0x1.ad2d2d2d2d2d4p-3%float); (3, 6, 0x1.7b425ed097b43p-2%float)] in
+  let t := 0x1p-2%float in
+  @Rdp.curved FloatNum false t (@trivial_cost FloatNum false) = false /\
+  shape_ok dt = true /\
+  @rdp FloatNum (dist_of dt) (cost_from ct) false t 6 =
+    Some ([0; 3; 4; 5], [(0, 2); (3, 0); (4, 0)], [(0, 6); (0, 4); (3, 6); (3, 5); (4, 6)]) /\
+  C01_code 6 (2 * 6 - 3) 1 (Some ([0; 3; 4; 5], [(0, 2); (3, 0); (4, 0)])) [5] = 0 /\
+  C01_code 6 (2 * 6 - 3) 1 None [89051] = 1 /\
+  C01_code 3 (3 - 1) 1 (Some ([0; 2; 2], [(0, 1); (2, 0)])) [1] = 2 /\
+  C01_code 6 (2 * 6 - 3) 1 (Some ([0; 3; 4; 5], [(0, 3); (3, 1); (4, 1)])) [5] = 3 /\
+  C01_code 6 (2 * 6 - 3) 1 (Some ([0; 3; 4; 5], [(0, 2); (3, 0); (4, 0)])) [10] = 5.
+Proof. vm_compute. repeat split. Qed.
